@@ -37,8 +37,20 @@ fn gen_f(t: &mut Tape) -> f64 {
 }
 pub fn gen_case(t: &mut Tape, _tier: Tier) -> Option<Case> {
     let d = t.range(1, 8);
-    let a = (0..d).map(|_| gen_f(t).to_bits()).collect();
-    let b = (0..d).map(|_| gen_f(t).to_bits()).collect();
+    let a: Vec<u64> = (0..d).map(|_| gen_f(t).to_bits()).collect();
+    let mut b: Vec<u64> = (0..d).map(|_| gen_f(t).to_bits()).collect();
+    // near-equal operands: b_i a few ulps away from a_i (cancellation, Sterbenz region), or equal
+    let a_: &Vec<u64> = &a;
+    for i in 0..d {
+        if t.chance(0.12) {
+            let off = t.range(0, 8) as i64 - 4;
+            let bits = a_[i] as i64;
+            let cand = f64::from_bits((bits + off) as u64);
+            if cand.is_finite() {
+                b[i] = cand.to_bits();
+            }
+        }
+    }
     let s = gen_f(t).to_bits();
     let k = match t.below(5) {
         0 => t.range(0, 2000) as i64 - 1000,
